@@ -431,9 +431,17 @@ def simple_expander(st, use, v, file, strip):
         st.out.append(Tok(t, prov))
 
 
+# IEEE 1800-2017 40.5: the predefined coverage control constants (every run starts with them; a source may redefine them)
+SV_COV = {'SV_COV_START': '0', 'SV_COV_STOP': '1', 'SV_COV_RESET': '2', 'SV_COV_CHECK': '3', 'SV_COV_MODULE': '10', 'SV_COV_HIER': '11',
+          'SV_COV_ASSERTION': '20', 'SV_COV_FSM_STATE': '21', 'SV_COV_STATEMENT': '22', 'SV_COV_TOGGLE': '23', 'SV_COV_OVERFLOW': '-2',
+          'SV_COV_ERROR': '-1', 'SV_COV_NOCOV': '0', 'SV_COV_OK': '1', 'SV_COV_PARTIAL': '2'}
+
+
 def table_from_case(case, info):
     """reference table from a PPCase + make_table info (same z3 variables)"""
     t = {}
+    for name, val in SV_COV.items():
+        t[name] = (True, {'body': val, 'file': None, 'body_off': None, 'params': None, 'name': name, 'src': 'builtin'})
     for name, alts in case.sym_defines.items():
         pres, conds = info[name]
         vals = []
